@@ -68,6 +68,13 @@ def xyz_cases(seed, tier):
         else:
             lines.append({"cols": 7, "xyz": xyz, "rgb": rgb, "extra": ["0.5"]})
     cases.append(("line_shapes", lines))
+    # decimals with many digits next to the middle between two floats: one correct rounding of the decimal text
+    lines = []
+    for k, b in enumerate([0x3F800000, 0x3F800001, 0x40490FDA, 0x00800000, 0x4B7FFFFE, 0x3DCCCCCC, 0x7F7FFFFE, 0x00000001, 0x3EAAAAAA, 0x41200000]):
+        for up in (True, False):
+            (tx, bx), (ty, by), (tz, bz) = near_midpoint_text(b, up), near_midpoint_text(b ^ 0x00000010, not up), near_midpoint_text((b + 7 * k) & 0x7F7FFFF0, up)
+            lines.append({"cols": 6, "xyz": [bx, by, bz], "text": [tx, ty, tz], "rgb": [k, 2 * k, 3 * k], "extra": []})
+    cases.append(("near_midpoints", lines))
     cases.append(("single_point", [{"cols": 6, "xyz": [0x3F800000, 0x40000000, 0x40400000], "rgb": [1, 2, 3], "extra": []}]))
     cases.append(("short_then_full", [{"cols": 3, "xyz": [0x40E00000, 0x41000000, 0x41100000], "rgb": [], "extra": []},
                                       {"cols": 6, "xyz": [0x41200000, 0x41300000, 0x41400000], "rgb": [70, 80, 90], "extra": []}]))
@@ -86,7 +93,22 @@ def xyz_cases(seed, tier):
     return cases
 
 
+def near_midpoint_text(b, up):
+    """a long decimal just above (up) or below the exact middle between the float with bits b and its successor, and the
+    bits of the float it must be parsed to (single correct rounding of the decimal)"""
+    from fractions import Fraction
+    from decimal import Decimal, getcontext
+    getcontext().prec = 80
+    lo, hi = Fraction(f32_from_bits(b)), Fraction(f32_from_bits(b + 1))
+    mid = (lo + hi) / 2
+    d = Decimal(mid.numerator) / Decimal(mid.denominator)
+    eps = abs(d) * Decimal(10) ** -17
+    return format(d + eps if up else d - eps, ".30g"), (b + 1 if up else b)
+
+
 def line_text(ln):
+    if "text" in ln:
+        return " ".join(ln["text"] + [str(c) for c in ln["rgb"]] + ln["extra"])
     parts = [fmt_f32(b) for b in ln["xyz"]] + [str(c) for c in ln["rgb"]] + ln["extra"]
     return " ".join(parts)
 
@@ -139,6 +161,12 @@ def run(tier, seed, args):
     ev({"ev": "reset", "name": "files"})
     ps = [p for p in progs.c06_programs(seed, "quick") if p["name"].startswith("image_")][:4] + progs.c01_programs(seed, "quick")[:6] + \
          [p for p in progs.c04_programs(seed, "quick") if p["name"] in ("all_set", "string7", "string11")]
+    # XML sections in other line shapes than the writer's: everything behind the declaration on one long line, no final line feed
+    allset = [p for p in progs.c04_programs(seed, "quick") if p["name"] == "all_set"][0]
+    for k, sep in enumerate((" ", "")):
+        st = [dict(x) for x in allset["steps"]]
+        st[-1] = {"op": "finalize", "xml_replace": [["\u0000ALL-LINE-FEEDS-BUT-THE-FIRST", sep]]}
+        ps.append(dict(allset, name=f"xml_one_long_line_{k}", steps=st))
     pp = os.path.join(wd, "files.progs.ndjson")
     with open(pp, "w") as f:
         for p in ps:
